@@ -157,8 +157,19 @@ class DavSys:
             p += urllib.parse.quote(name)
         return p
 
+    pending_fault = None  # k: make the k-th mutating file-system call of the NEXT write request fail (ENOSPC)
+    last_fault = None
+
     def req(self, method, target, headers=None, body=b""):
         self.nreq += 1
+        if self.pending_fault is not None and method in ("PUT", "DELETE", "POST", "PROPPATCH", "MKCOL", "MKCALENDAR"):
+            from . import sched
+
+            k, self.pending_fault = self.pending_fault, None
+            with sched.FaultInjector(self.root, k) as inj:
+                r = self.world.request(method, target, headers, body)
+            self.last_fault = {"k": k, "fired": inj.fired, "mutating_calls": inj.count}
+            return r
         return self.world.request(method, target, headers, body)
 
     def close(self):
@@ -258,6 +269,13 @@ class DavSys:
         op = tuple(op)
         if self.last_audit is None:
             self.last_audit = self.audit()
+        fault_k = None
+        full_op = op
+        if op[0] == "fault":
+            fault_k = op[1]
+            op = tuple(op[2])
+            self.pending_fault = fault_k
+            self.last_fault = None
         prev = self.last_audit
         kind = op[0]
         info = {"outcome": kind + ":?", "success": False}
@@ -386,7 +404,11 @@ class DavSys:
         info["outcome"] = "%s:%s" % (kind, info.get("status"))
         if resp is not None and resp.exc:
             info["exc"] = resp.exc
-        self.hist.append(op)
+        if fault_k is not None:
+            self.pending_fault = None
+            info["fault"] = self.last_fault
+            info["outcome"] = "fault:" + info["outcome"]
+        self.hist.append(full_op)
         self.prev_audit = prev
         audit = self.audit()
         self.recording = check
